@@ -66,6 +66,13 @@ ASSUMPTIONS = [
     "the positions stay where the previous trajectory left them; each trajectory is compared with the reference "
     "leapfrog of the CURRENT target and the first one after the change is also reversed; non-trivial only when the "
     "change moves the gradient at that position by > 1e-6",
+    "mixed_*: float64 positions with a float32 mass matrix (JSON Parameter with dtype torch.float32, diagonal entries "
+    "powers of two so that the inverse is exact), a step size that is a float32 number (the library forms step_size * "
+    "inverse_mass_matrix in float32) and float32 momentum (exactly representable): the integrator "
+    "promotes the momentum to float64 at the first kick, so differential / reversal / energy order / the operator's "
+    "proposal are asserted at the float64 tolerances; the operator's Hastings term at 2e-6 relative because K(p0) is "
+    "computed by the library in single precision; a dense float32 matrix raises a dtype error in the unchanged "
+    "integrator (float32 @ float64) - counted under the label mixed_dense_raises, not asserted",
     "operator_failure: gamma targets started at x in [2,7] with step sizes >= 0.1 overflow exp(x); an attempt may "
     "be abandoned only where the reference trajectory for that momentum is itself outside the guard; when the "
     "operator gives up (+inf) the position must be bit-identical to the one before the step",
@@ -137,7 +144,7 @@ def _block(draw, kind, n):
 
 
 @st.composite
-def cases(draw, targets=("block", "block", "mvn", "phylo"), max_L=30, phylo_max_L=30, eps_lo=1e-3, masses=("identity", "identity_dense", "diag", "diag", "dense", "dense"), operator=False, harsh=False, raw=False, update=False):
+def cases(draw, targets=("block", "block", "mvn", "phylo"), max_L=30, phylo_max_L=30, eps_lo=1e-3, masses=("identity", "identity_dense", "diag", "diag", "dense", "dense"), operator=False, harsh=False, raw=False, update=False, mixed=False):
     target = draw(st.sampled_from(list(targets)))
     c = {"target": target}
     # the knobs first, the bulk of the numbers afterwards (late draws of a long example are the
@@ -194,6 +201,17 @@ def cases(draw, targets=("block", "block", "mvn", "phylo"), max_L=30, phylo_max_
     c["eps"] = eps
     c["L"] = L
     c["mass"] = _mass(draw, d, mass_kind)
+    if mixed:
+        # float64 positions with a single-precision mass matrix (what {"ones": n} without dtype gives under a
+        # float32 default dtype) and hence single-precision momentum. All single-precision inputs are exactly
+        # representable: diagonal entries are powers of two (so is their inverse), momenta are rounded to float32
+        c["precision"] = "mass32"
+        # step_size * inverse_mass_matrix is a float32 product in the library (python scalar x float32 tensor):
+        # with a step size that is itself a float32 number and power-of-two masses that product is exact, so the
+        # float64 reference with the same numbers describes the same trajectory
+        c["eps"] = float(np.float32(c["eps"]))
+        if c["mass"]["kind"] == "diag":
+            c["mass"]["M"] = [2.0 ** draw(st.sampled_from([0, 1, -1, 2, -2])) for _ in range(d)]
     if update:
         # a second set of values for every OTHER parameter of the target (same structure): what another
         # operator of a Metropolis-within-Gibbs chain would change between two HMC moves
@@ -213,6 +231,8 @@ def cases(draw, targets=("block", "block", "mvn", "phylo"), max_L=30, phylo_max_
         if update:
             c["p1"] = [draw(fl(-3.0, 3.0)) for _ in range(d)]
         c["p0"] = [draw(fl(-3.0, 3.0)) for _ in range(d)]
+        if mixed:
+            c["p0"] = [float(np.float32(x)) for x in c["p0"]]
     return c
 
 
@@ -423,10 +443,20 @@ def build_integrator(eps, L, dic=None, id_="lf"):
     return obj
 
 
+def is_mixed(c):
+    return c.get("precision") == "mass32"
+
+
+def minv_tensor(c, minv):
+    """inverse mass matrix as the operator would hold it: in the precision of the mass matrix"""
+    return tt.T(np.asarray(minv).tolist(), dtype=torch.float32 if is_mixed(c) else None)
+
+
 def run_impl(b, integ, q, p, minv_t):
-    """integrator as its caller uses it: positions are read from / written to the parameters"""
+    """integrator as its caller uses it: positions are read from / written to the parameters; the momentum
+    comes in the precision of the mass matrix (Hamiltonian.sample_momentum)"""
     b.set_q(q)
-    p1 = integ(b.joint, b.params, torch.tensor(np.asarray(p, dtype=float).tolist()), minv_t)
+    p1 = integ(b.joint, b.params, torch.tensor(np.asarray(p, dtype=float).tolist(), dtype=minv_t.dtype), minv_t)
     q1 = b.get_q()
     return q1, arr(p1)
 
@@ -475,7 +505,7 @@ def body_trajectory(c, which):
     orc = Oracle(c)
     M = mass_np(c)
     minv = lf.invert_mass(M)
-    minv_t = tt.T(minv.tolist())
+    minv_t = minv_tensor(c, minv)
     q0 = np.asarray(c["q0"], dtype=float)
     p0 = np.asarray(c["p0"], dtype=float)
     eps, L = c["eps"], c["L"]
@@ -493,7 +523,17 @@ def body_trajectory(c, which):
         S = max(S, back["scale"])
     b = Built(c)
     integ = build_integrator(eps, L)
-    q1, p1 = run_impl(b, integ, q0, p0, minv_t)
+    if is_mixed(c) and minv.ndim == 2:
+        # float32 matrix @ float64 momentum: the unchanged code raises a dtype error here; counted, not asserted
+        out, exc = guarded(run_impl, b, integ, q0, p0, minv_t)
+        if exc is not None:
+            _lab(res, "mixed_dense_raises:" + type(exc).__name__)
+            return res
+        q1, p1 = out
+    else:
+        q1, p1 = run_impl(b, integ, q0, p0, minv_t)
+    if is_mixed(c):
+        _lab(res, "precision=mass32")
     if q1 is None:
         return res.fail("shape", {"shapes": [list(p.tensor.shape) for p in b.params], "sizes": c["sizes"]})
     moved = float(np.max(np.abs(ref["q"] - q0))) > 1e-6 and S <= 1e3
@@ -676,7 +716,10 @@ def body_energy(c):
     orc = Oracle(c)
     M = mass_np(c)
     minv = lf.invert_mass(M)
-    minv_t = tt.T(minv.tolist())
+    minv_t = minv_tensor(c, minv)
+    if is_mixed(c) and minv.ndim == 2:
+        _lab(res, "mixed_dense_not_run")
+        return res
     q0 = np.asarray(c["q0"], dtype=float)
     p0 = np.asarray(c["p0"], dtype=float)
     eps, L = c["eps"], c["L"]
@@ -797,17 +840,26 @@ def body_operator(c):
     b = Built(c)
     build_integrator(eps, L, b.dic, "lf")
     route = c.get("mass_route", "spec")
+    mixed = is_mixed(c)
+    if mixed and M.ndim == 2:
+        _lab(res, "mixed_dense_not_run")  # dtype error on the unchanged code (see 'mixed_differential')
+        return res
+    # single-precision mass matrix: K(p0) is evaluated by the library in single precision (p0 is float32)
+    htol = 2e-6 if mixed else 1e-10
     if route == "spec":
         mass = tt.P("op.mass", c["mass"]["M"])
     else:
         # what the CLI writes; the case's matrix is assigned afterwards, the way MassMatrixAdaptor does
         mass = {"id": "op.mass", "type": "Parameter", ("ones" if M.ndim == 1 else "eye"): d}
+    if mixed:
+        mass["dtype"] = "torch.float32"
+        _lab(res, "precision=mass32")
     op, _ = tt.build(
         {"id": "op", "type": "HMCOperator", "joint": "joint", "parameters": list(b.ids) if len(b.ids) > 1 else b.ids[0], "integrator": "lf", "mass_matrix": mass, "weight": 1.0},
         b.dic,
     )
     if route != "spec":
-        b.dic["op.mass"].tensor = tt.T(M.tolist())
+        b.dic["op.mass"].tensor = tt.T(M.tolist(), dtype=torch.float32 if mixed else None)
     _lab(res, "mass_route=" + route)
     torch.manual_seed(c["torch_seed"])
     q_cur = np.asarray(c["q0"], dtype=float)
@@ -876,7 +928,7 @@ def body_operator(c):
             return res.fail("proposal", {"err": err, "scale": S, "amp": amp, "q": q1.tolist(), "q_ref": ref["q"].tolist(), "p": p1.tolist(), "p_ref": ref["p"].tolist(), "draws": len(att)})
         K0, K1 = lf.kinetic(p0, minv), lf.kinetic(p1, minv)
         Ks = max(1.0, K0, K1)
-        if not abs(hv - (K0 - K1)) <= 1e-10 * Ks:
+        if not abs(hv - (K0 - K1)) <= htol * Ks:
             return res.fail("hastings", {"returned": hv, "K0-K1": K0 - K1, "K0": K0, "K1": K1})
         if any(p.requires_grad for p in b.params):
             return res.fail("requires_grad", {"flags": [bool(p.requires_grad) for p in b.params]})
@@ -886,7 +938,7 @@ def body_operator(c):
         if not abs(lp1 - lp1r) <= 1e-10 * max(1.0, abs(lp1r)):
             return res.fail("stale_density", {"joint": lp1, "expected": lp1r, "step": nsteps})
         dH = (-lp1r + K1) - (-lp_cur + K0)
-        if not abs((lp1 - lp0 + hv) + dH) <= 1e-9 * max(1.0, abs(lp_cur), abs(lp1r), Ks):
+        if not abs((lp1 - lp0 + hv) + dH) <= max(1e-9, htol) * max(1.0, abs(lp_cur), abs(lp1r), Ks):
             return res.fail("acceptance", {"log_ratio": lp1 - lp0 + hv, "minus_dH": -dH})
         if float(np.max(np.abs(q1 - q_cur))) > 1e-6 and S <= 1e3:
             res.nontrivial = True
@@ -1041,5 +1093,9 @@ def subchecks(tier):
         Sub("operator_gibbs", body_operator, strategy=lambda: cases(targets=toy, operator=True, update=True), quick=160, thorough=6000, pretags=pretags),
         Sub("sequence", body_sequence, strategy=lambda: cases(targets=toy, update=True), quick=200, thorough=8000, pretags=pretags),
         Sub("sequence_phylo", body_sequence, strategy=lambda: cases(targets=ph, phylo_max_L=12, update=True), quick=16, thorough=400, pretags=pretags),
+        Sub("mixed_differential", body_differential, strategy=lambda: cases(targets=toy, mixed=True, masses=("diag", "diag", "diag", "identity", "dense")), quick=120, thorough=5000, pretags=pretags),
+        Sub("mixed_reversal", body_reversal, strategy=lambda: cases(targets=toy, mixed=True, masses=("diag", "diag", "identity")), quick=120, thorough=5000, pretags=pretags),
+        Sub("mixed_energy", body_energy, strategy=lambda: cases(targets=toy, mixed=True, masses=("diag", "diag", "identity"), max_L=16 if q else 30), quick=100, thorough=4000, pretags=pretags),
+        Sub("mixed_operator", body_operator, strategy=lambda: cases(targets=toy, mixed=True, operator=True, masses=("diag", "diag", "identity")), quick=120, thorough=5000, pretags=pretags),
         Sub("hamiltonian", body_hamiltonian, strategy=ham_cases, quick=200, thorough=8000, pretags=ham_pretags),
     ]
